@@ -783,7 +783,10 @@ class Execution:
 
     def _await_start(self, req_fd, rbuf, sid, on_start, proc):
         if sid in self.announced:
+            # its start message overtook the hook event of an earlier command: it takes effect here, in the order of ninja's
+            # own StartEdge events (the two FIFOs are not ordered with respect to each other)
             self.announced.discard(sid)
+            on_start(sid)
             return True
         t_end = time.time() + 20
         while time.time() < t_end:
@@ -793,8 +796,8 @@ class Execution:
                 if len(parts) >= 2 and parts[0] == "S":
                     got = int(parts[1][1:])
                     self.pids[got] = int(parts[2]) if len(parts) > 2 else 0
-                    on_start(got)
                     if got == sid:
+                        on_start(got)
                         return True
                     self.announced.add(got)
             if proc.poll() is not None:
